@@ -1,6 +1,6 @@
 (* C15 - FEN input is parsed totally (and faithfully: decided by the correspondence on the
    specification's printer output and on a malformed stream). *)
-From Walleye Require Import Model.Fen Proofs.FenProofs.
+From Walleye Require Import Model.Fen Spec.FenPrint Spec.Abs Proofs.FenProofs Proofs.CheckProofs Proofs.HashProofs Proofs.FenRoundTrip Proofs.FenAccept Proofs.FenLegal Gen.ZobristTable.
 Open Scope Z_scope.
 
 (* for every string (any sequence of Unicode scalar values) and every table: a board or an error,
@@ -12,5 +12,35 @@ Proof. intros zt s. exact (from_fen_total zt s). Qed.
 Theorem C15_counters_32_bits : FEN_HALFMOVE_BITS = 32 /\ FEN_FULLMOVE_BITS = 32.
 Proof. split; reflexivity. Qed.
 
+(* faithful on what the specification prints: for every placement of 64 squares (any pieces, any number of
+   kings), side to move, castling rights, en-passant square on the board and counters below 2^32, the
+   printed FEN is accepted and the loaded state denotes exactly that position; nothing else of the state
+   is left undetermined (heuristic 0, no last move, no promotion mark, key = hash) *)
+Theorem C15_printed_position_is_read_back : forall zt p h f,
+  length (pos_pl p) = 64%nat -> ep_wf (pos_ep p) -> 0 <= h < 2 ^ 32 -> 0 <= f < 2 ^ 32 ->
+  exists st, from_fen zt (print_fen p h f) = Ok st /\ abs st = p /\ cells_ok (board st) /\ key_ok zt st /\
+             order_heuristic st = 0 /\ last_move st = None /\ pawn_promotion st = None.
+Proof.
+  intros zt p h f L E Hh Hf. exists (loaded_state zt p). split; [now apply from_fen_print|].
+  split; [now apply loaded_state_abs|]. split; [apply loaded_state_cells|]. split; [now apply loaded_state_key|]. repeat split.
+Qed.
+
+(* and on every accepted string, printed by the specification or not: the result is the state of some
+   position with 64 squares and an en-passant square on the board (so: coherent board, key = hash) *)
+Theorem C15_accepted_string_denotes_a_position : forall zt fen st, from_fen zt fen = Ok st ->
+  exists p, st = loaded_state zt p /\ abs st = p /\ length (pos_pl p) = 64%nat /\ cells_ok (board st).
+Proof.
+  intros zt fen st H. destruct (accepted_is_loaded zt fen st H) as (p & -> & L & E). exists p.
+  split; [reflexivity|]. split; [now apply loaded_state_abs|]. split; [exact L|apply loaded_state_cells].
+Qed.
+
+(* non-vacuity, and a tie of the printer to the engine's constant: the printed initial position is the
+   engine's DEFAULT_FEN_STRING *)
+Example C15_printer_prints_the_start_position : forall st,
+  from_fen zt_concrete DEFAULT_FEN_STRING = Ok st -> print_fen (abs st) 0 1 = DEFAULT_FEN_STRING.
+Proof. intros st H. vm_compute in H. injection H as <-. vm_compute. reflexivity. Qed.
+
 Print Assumptions C15_total.
+Print Assumptions C15_printed_position_is_read_back.
+Print Assumptions C15_accepted_string_denotes_a_position.
 Print Assumptions C15_counters_32_bits.
